@@ -539,10 +539,14 @@ func (x *c03) gatedIntact() {
 				msg = "the bytes written on the other connection differ from that packet's encoding"
 			}
 		}
+		intactClause := "c19_intact"
+		if x.prop != "c19" {
+			intactClause = "c03_wire_is_concat" // C03: the wire is exactly the concatenation of the packets' encodings (seed C03-10)
+		}
 		if msg != "" {
-			c.Emit("direct c19_intact %d FAIL (packet of %d bytes held in the carrier while %d bytes were received) %s", n, size, len(inB), msg)
+			c.Emit("direct "+intactClause+" %d FAIL (packet of %d bytes held in the carrier while %d bytes were received) %s", n, size, len(inB), msg)
 		} else {
-			c.Emit("direct c19_intact %d ok", n)
+			c.Emit("direct "+intactClause+" %d ok", n)
 		}
 		c.Stat("intact_checks", 1)
 		_ = call(func() { _ = connA.Close() })
